@@ -980,6 +980,12 @@ def premise_of_theorems(chk, cases, seen):
             chk.count("premise: initial file too large for orderedb (not evaluated)")
             continue
         chk.count("premise: initial file is %s (Coq orderedb)" % ("ordered" if v else "sound but NOT ordered: outside the theorems"))
+        if not v and c.desc.startswith("Tdf.new"):
+            wf = container.wf_violation(c.init, c.init["n"])
+            chk.violation("%s: the file Tdf.new creates is not a sound, ordered container (Coq orderedb rejects it%s)" %
+                          (chk.pid, ": " + wf if wf else ""), {"initial": c.desc, "initial_file_hex": c.init["raw"].hex()[:20000]}, True)
+            seen[key] = True            # reported once
+            continue
         if not v and c.stratum not in NOT_ORDERED_STRATA and not c.stratum.startswith("replay"):
             raise RuntimeError("stratum %r starts from a file Coq's orderedb rejects (%s): the generator claims more than it delivers"
                                % (c.stratum, c.desc))
